@@ -25,18 +25,22 @@ Print Assumptions C09_safe_if_tracked.
 
 (* ... where the tracked channels are exactly these (`involved s i h`: holder h is private to its owner, or lists
    instance i among its involving instances, as exported/imported TABLES do and GLOBALS do not):
-     ref.func stored by instance i into its holder t   — tracked iff the holder tracks i;
+     ref.func stored by instance i into its holder t (table.set/global.set/table.fill, or table.grow's initial
+                                                       value) — tracked iff the holder tracks i;
      a copy between two holders of i                   — tracked iff the destination tracks i;
      a parameter/result hand-over from i to j's holder — tracked iff the holder tracks j and (i = j or j imports a
-                                                         function defined by i: j's module engine points to i's);
+                                                         function defined by i: j's module engine points to i's),
+                                                         or the holder is a shared table that lists the sender i;
      everything else (instantiate with its element segments, compile, clear, calls, close*, drop, gc) — always. *)
 Theorem C09_tracked_channels : forall s o, tracked s o = true <->
   match o with
   | OSetRef i t k f => holder_acc s i t = true -> rec_ok s i f = true -> involved s i (holder_of s i t)
+  | OGrowRef i t f => holder_acc s i t = true -> rec_ok s i f = true -> involved s i (holder_of s i t)
   | OCopy i ts ks td kd => holder_acc s i ts = true -> holder_acc s i td = true -> involved s i (holder_of s i td)
   | OPassParam i f j t k =>
       rec_ok s i f = true -> holder_acc s j t = true ->
-      involved s j (holder_of s j t) /\ (i = j \/ In (me_of s i) (o_vis (getd s (me_of s j))))
+      (involved s j (holder_of s j t) /\ (i = j \/ In (me_of s i) (o_vis (getd s (me_of s j)))))
+      \/ shared_with s i (holder_of s j t)
   | _ => True
   end.
 Proof. exact tracked_spec. Qed.
